@@ -12,7 +12,8 @@
      n, lines       what State.SaveGlobals returned and wrote (split at newlines)
      nu, linesu     the same with the limit off (equal to n, lines when lim = 0)
      names          the names of the session's top-level bindings that are subject to saving, in name order
-     saveext, autosave   the real save() extension / repl.AutoSave wrote exactly the same bytes
+     saveext, autosave   the real save() extension (into ./.gr and into a file with a name, each time over what the
+                    history of the session had left in the file) / repl.AutoSave left exactly the same bytes in the file
      b              <<name, kind, value>> for every saved binding that holds data or grol functions,
                     value as observed in the SAVING session
      a, w           the fresh session after repl.AutoLoad / after load():
@@ -20,6 +21,9 @@
                       idem   saving the reloaded session gave the same bytes
                       calls  <<expr, o0, o1>>: the same call in the saving session and in the reloaded one,
                              o = <<output, value, is-error, timed-out>>
+     hs, hserr      the history the saving session ran before its final save, at each of its "session" steps
+                    (auto-save, fresh session, auto-load): <<step, name, present, v0, v1>> for every data global the
+                    ending session's auto-save writes - v0 there, v1 in the next session; hserr: steps whose auto-save failed
 
    The verdict is the property's own relation (self-relative): nothing here compares with the model's
    prediction.  The operators of SaveLoad are reused for the line structure (LineName) and the value
@@ -68,12 +72,19 @@ Flag(ok, tag) == IF ok THEN <<>> ELSE <<tag>>
 
 PathFails(r, p, tag) == RtFails(r, p, tag) \o CallFails(p, tag) \o Flag(p.idem, StrCat("idem:", tag))
 
+\* the "session" steps of a history: every data global the ending session's auto-save writes is back in the next session
+\* (hs: <<step, name, present, value before, value after>>), and no auto-save failed (hserr: steps)
+HsFails(r) ==
+  LET bad == SelectSeq(Idx(Len(r.hs)), LAMBDA i : ~(r.hs[i][3] /\ TSame(r.hs[i][4], r.hs[i][5])))
+  IN [k \in 1..Len(bad) |-> Tag3("hrt:", r.hs[bad[k]][1], r.hs[bad[k]][2])]
+     \o [k \in 1..Len(r.hserr) |-> StrCat("step:", r.hserr[k])]
+
 Verdict(r) ==
   IF r.k = "sess" THEN [id |-> r.id, lim |-> r.lim, fails |-> RtFails(r, r.a, "A")] ELSE
   [id |-> r.id, lim |-> r.lim,
    fails |-> Flag(OneLineOK(r), "oneline") \o Flag(SkippedOK(r), "skipped")
              \o Flag(r.saveext, "saveext") \o Flag(r.autosave, "autosave")
-             \o PathFails(r, r.a, "A") \o PathFails(r, r.w, "W")]
+             \o PathFails(r, r.a, "A") \o PathFails(r, r.w, "W") \o HsFails(r)]
 
 TraceInit ==
   /\ l = 0
